@@ -73,7 +73,7 @@ def strategy(tier):
 
     o_slice = op("slice", src=ref, spec=spec)
     ps = st.booleans()   # prefer a slice as the target when one exists
-    o_state = op("set_state", h=ref, ps=ps, mode=st.sampled_from(["array", "array", "scalar", "iadd", "inplace"]))
+    o_state = op("set_state", h=ref, ps=ps, mode=st.sampled_from(["array", "array", "scalar", "iadd", "inplace", "own_view"]))
     o_sens = op("set_sens", h=ref, ps=ps, mode=st.sampled_from(["array", "array", "scalar", "none"]))
     o_add = op("add", h=ref, ps=ps, src=st.sampled_from(["fresh", "fresh", "donor", "donor", "scalar"]), d=ref)
     o_from = op("add_from", h=ref, ps=ps, g=ref)
@@ -355,6 +355,26 @@ class _Run:
         pos = h["pos"]
         v = _pyscalar(rng, b.cplx) if mode == "scalar" else _values(rng, shp, b.cplx)
         vv = v.copy() if isinstance(v, np.ndarray) else v
+        if mode == "own_view":
+            # the assigned value is itself a view of the signal's current data (the slice reversed, or another slice of
+            # the same base with the same shape): numpy assigns as if the right-hand side were copied first
+            cur = self.pm("slice.state", lambda: sig.state)
+            if cur is _FAIL:
+                return True
+            peers = [g for g in self.handles if g is not h and g["base"] is b and g["pos"] is not None
+                     and self.hshape(g) == shp]
+            src = None
+            if peers and rng.integers(0, 2) == 0:
+                src = self.pm("peer slice.state", lambda: peers[int(rng.integers(0, len(peers)))]["sig"].state)
+                if src is _FAIL:
+                    return True
+                self.labels.add("state:assign_peer_view")
+            elif isinstance(cur, np.ndarray) and cur.ndim >= 1 and cur.shape[0] >= 2:
+                src = cur[::-1]
+                self.labels.add("state:assign_reversed_view")
+            if isinstance(src, np.ndarray) and src.shape == tuple(shp):
+                v = np.array(src, copy=True)
+                vv = src
         if mode == "iadd":
             def run():
                 sig.state += vv
@@ -365,7 +385,7 @@ class _Run:
             if self.pm("slice.state = value", lambda: setattr(sig, "state", vv)) is _FAIL:
                 return True
             self.m_write(b.mstate, pos, v)
-        if isinstance(vv, np.ndarray) and not np.array_equal(vv, v):
+        if isinstance(vv, np.ndarray) and not np.array_equal(vv, v) and mode != "own_view":
             self.bad(f"{self.opname}:value_changed", "the value assigned through the slice was modified")
         self.labels.add("state:slice_write")
         self.n_slice_write += 1
